@@ -43,7 +43,7 @@ def _rand_header(rng, D):
 
 def correspondence(ctx):
     rng = ctx.rng
-    n = ctx.n(120, 1200)
+    n = ctx.n(120, 3600)
     cases, dist = [], {}
     for i in range(n):
         D = 2 + (i % 2)
@@ -82,17 +82,12 @@ def correspondence(ctx):
         hs, ho, hd = qc_vec(h["spacing"]), qc_vec(h["origin"]), qc_mat(h["direction"])
         t6 = f"vcloser tol64 (gen_attrs_i2p (K:=QcF) {D} {hs} {ho} {hd} {x}) {qc_vec(r['attrs_world'])}"
         t7 = f"vcloser (1 # 100000000) (gen_attrs_p2i (K:=QcF) {D} {hs} {ho} {hd} {qc_vec(r['attrs_world'])}) {qc_vec(r['attrs_back'])}"
-        lines.append(f"Definition c{i} : bool := ({t1}) && ({t2}) && ({t3}) && ({t4}) && ({t5}) && ({t6}) && ({t7}).")
-        names.append((i, f"c{i}"))
-    lines.append("Definition results : list bool := " + coq_list([nm for _, nm in names]) + ".")
-    lines.append('Eval vm_compute in ("FAIL"%string, failing results).')
-    rc, out = vlib.coqc_text("\n".join(lines) + "\n", ctx.scratch, "cases_c02", timeout=900)
-    bad = vlib.parse_nat_list(out, "FAIL")
-    if rc != 0 or bad is None:
-        failures.append({"why": "case file did not evaluate", "coq": out[-800:]})
-    else:
-        for j in bad:
-            i = names[j][0]
+        names.append((i, f"({t1}) && ({t2}) && ({t3}) && ({t4}) && ({t5}) && ({t6}) && ({t7})"))
+    bad, errs = vlib.run_cases(ctx.scratch, lines, names, name="cases_c02")
+    for e in errs:
+        failures.append({"why": "case file did not evaluate", "coq": e[-800:]})
+    if True:
+        for i in bad:
             failures.append({"case": cases[i], "impl": {k: v for k, v in res[i].items() if k != "stored"}, "why": "model / ITK spec / implementation disagree"})
     return {"evaluations": len(cases), "distinct_nontrivial": len({str(c) for c in cases}),
             "rule": "seeded random headers (sizes 1..20, dyadic origin, anisotropic spacing, rational rotations incl. 90-degree turns and double flips), "
@@ -104,7 +99,7 @@ def correspondence(ctx):
 
 
 def search(ctx, broken, corr_failures):
-    n = ctx.n(60, 800)
+    n = ctx.n(60, 3000)
     r = vlib.run_impl("c02_impl", {"fn": "oracle", "seed": ctx.seed, "n": n}, timeout=1500)
     ctx.notes.append(f"implementation-side property evaluation: {r['counts']}")
     out, seen = [], set()
